@@ -102,7 +102,7 @@ impl Out {
         std::fs::write(format!("{}/meta.json", dir), serde_json::to_string_pretty(&meta).unwrap()).unwrap();
     }
 }
-pub fn trunc(s: &str, n: usize) -> String { if s.len() <= n { s.to_string() } else { format!("{}…(+{} chars)", &s[..n], s.len() - n) } }
+pub fn trunc(s: &str, n: usize) -> String { if s.len() <= n { s.to_string() } else { let mut k = n; while !s.is_char_boundary(k) { k -= 1; } format!("{}…(+{} bytes)", &s[..k], s.len() - k) } }
 
 /// run `f`, mapping a panic to Err(message)
 pub fn guarded<T>(f: impl FnOnce() -> T + std::panic::UnwindSafe) -> Result<T, String> {
